@@ -864,6 +864,12 @@ func genHistory(r *core.RNG, tier string) *cliScenario {
 		sc.Env.Cache = "readonly"
 	case 3:
 		sc.Env.Tmp = "missing"
+	case 4:
+		// the cache directory on a file system with little or no room left
+		sc.Env.Cache, sc.Env.CacheRoom = "full", []int{0, 1, 59, 60, 61, 300, 3000, 20000}[r.Intn(8)]
+	case 5:
+		// the temp directory, where standard input is spooled, likewise
+		sc.Env.Tmp, sc.Env.TmpRoom = "full", []int{0, 1, 100, 4096, 5000, 30000}[r.Intn(6)]
 	}
 	maxLen := 4
 	if tier == "thorough" {
